@@ -495,6 +495,9 @@ hwloc_get_ancestor_obj_by_depth (hwloc_topology_t topology __hwloc_attribute_unu
     return NULL;
   while (ancestor && ancestor->depth > depth)
     ancestor = ancestor->parent;
+  if (ancestor && ancestor->depth != depth)
+    /* asymmetric topology: no ancestor at that exact depth on this branch */
+    return NULL;
   return ancestor;
 }
 
